@@ -1,6 +1,6 @@
 SPECIFICATION Spec
 CONSTANTS MaxN = 3999
-  MaxPage = 6
+  MaxPage = 5
   Bug = "exactHitOff"
 INVARIANTS RomanAgrees AlphaAgrees RangeAgrees LabelAgrees
 CHECK_DEADLOCK FALSE
